@@ -65,6 +65,8 @@ def gen_random(rng, chk, nops):
     chk.bump("style:" + style)
     chk.bump("flags:" + (flags.strip() or "notifiers"))
     universe = rng.choice([8, 30, 200, 2000])
+    nulls = rng.choice([0, 0, 0, 0.1, 0.3])          # NULL (integer 0 / no payload) as key and as value
+    chk.bump("nulls:%s" % nulls)
     ops = ["new %s%s" % (ty, flags)]
     present = set()
     ctr = 0
@@ -83,7 +85,15 @@ def gen_random(rng, chk, nops):
             k = rng.randrange(1, universe + 1)
         pins = 0.25 if style == "delete-heavy" and len(present) > universe // 3 else 0.55
         if r < pins:
-            ops.append("ins %d" % k)
+            if nulls and rng.random() < nulls:
+                w = rng.choice(["insv", "insv", "insk", "inskv"])
+                if w == "insv":
+                    ops.append("insv %d" % k)
+                else:
+                    ops.append(w)
+                    k = 0
+            else:
+                ops.append("ins %d" % k)
             present.add(k)
             ctr += 1
         elif r < 0.85:
@@ -107,6 +117,25 @@ def gen_random(rng, chk, nops):
     return ops
 
 
+def null_cases():
+    """NULL is a legal key and a legal value: every position of a 7-node tree (leaf, one child after a removal, two
+    children incl. the root) holds the NULL value / the NULL key once, then is replaced, removed, cleared"""
+    cases = []
+    for ty in TYPES:
+        for flags in ("", " konly", " vonly", " plain"):
+            for target in (1, 2, 3, 4, 5, 6, 7):
+                base = [4, 2, 6, 1, 3, 5, 7]
+                ops = ["new %s%s" % (ty, flags)] + [("insv %d" % k) if k == target else ("ins %d" % k) for k in base]
+                cases.append(ops + ["shape", "get %d" % target, "rem %d" % target, "shape", "each 0", "clear"])
+                cases.append(ops + ["ins %d" % target, "insv %d" % target, "insv %d" % target, "rem %d" % target, "each 0", "clear"])
+            for order in ([3, 1, 5, 2, 4], [1, 3, 5], [5, 3, 1], [2, 1, 3]):
+                # the NULL key orders as 0: smallest key; as root (inserted first), as leaf, replaced, removed with two children below
+                for w in ("insk", "inskv"):
+                    cases.append(["new %s%s" % (ty, flags), w] + ["ins %d" % k for k in order] + ["shape", "get 0", w, "each 0", "rem 0", "shape", "each 0", "clear"])
+                    cases.append(["new %s%s" % (ty, flags)] + ["ins %d" % k for k in order] + [w, "shape", "rem %d" % order[0], w, "rem 0", "rem 0", "each 0", w, "clear"])
+    return cases
+
+
 def run(chk, prop, view, modules, label):
     cfg = pv.repo_config()
     proof_ok, driver_ok, detail = pv.proof_stage(chk, modules)
@@ -115,7 +144,7 @@ def run(chk, prop, view, modules, label):
     fam.keep_prefix = 1      # the `new …` line is the case's configuration, never shrunk away
     thorough = chk.tier == "thorough"
     rng = chk.rng
-    cases = pv.load_corpus("trees") + pv.load_corpus(prop)
+    cases = pv.load_corpus("trees") + pv.load_corpus(prop) + null_cases()
     ex = list(exhaustive_seqs(4 if thorough else 3))
     nk = 5 if thorough else 4
     exo = list(exhaustive_orders(nk))
